@@ -27,6 +27,7 @@ pub struct C02;
 pub fn profile(tier: Tier) -> Profile {
     let mut p = Profile::base(if tier == Tier::Quick { 40 } else { 120 });
     p.w_reopen = 2;
+    p.w_update_state = 1;
     p.big_batches = true;
     p.small_cache = true;
     p.huge_payload = tier == Tier::Thorough;
@@ -118,6 +119,23 @@ impl Prop for C02 {
                     continue;
                 }
                 let d = run.exec(op)?;
+                if let (OpSpec::UpdateState { what, .. }, Done::Wrote { .. }) = (op, &d) {
+                    if what % 5 >= 3 {
+                        // `last` was overridden while the entries stay: from here on the store is
+                        // only read and restarted (writes on such a state are the caller's
+                        // business, not specified); restart equivalence must still hold
+                        run.classes.hit("update_state_last_overridden");
+                        run.check_state()?;
+                        run.check_full_read()?;
+                        let cfg = case.alt.clone().unwrap_or_else(|| run.cfg.clone());
+                        reopen_checked(run, &cfg)?;
+                        run.check_state()?;
+                        run.check_full_read()?;
+                        let cfg0 = case.cfg.clone();
+                        reopen_checked(run, &cfg0)?;
+                        return Ok((run.classes.clone(), run.excluded, reopened_after_rotation && write_after));
+                    }
+                }
                 if let Done::Wrote { .. } = d {
                     if !matches!(op, OpSpec::Append { .. }) {
                         nonappend = true;
